@@ -2,6 +2,8 @@
 EXTENDS ModelBuild, ModelBlueprints, Json
 
 OneBlueprint == {GIFT2}
+\* the pinned behaviour for two possible dividend recipients: first declared wins (MC_ModelBuild_asfound2.cfg)
+TwoCapsWellFormed == { [TWOCAPS EXCEPT !.wellformed = TRUE] }
 Quick == QuickBlueprints
 Thorough == AllBlueprints
 
